@@ -61,10 +61,11 @@ const (
 )
 
 var (
-	ctx    *gal.Ctx
-	rng    *rand.Rand
-	tmpDir string
-	tmpSeq int
+	ctx     *gal.Ctx
+	rng     *rand.Rand
+	rngRuns *rand.Rand // randomSegs' runs of neighbouring segments
+	tmpDir  string
+	tmpSeq  int
 )
 
 // ------------------------------------------------------------------ images
@@ -832,22 +833,24 @@ func randomSegs(im *image, allowOutside bool) []seg {
 	// consecutive list entries that are related by position (real manifests list the IBB back to back): a run of
 	// 2-5 segments each starting where the previous one ends (sometimes one byte / one paragraph later, or one byte
 	// earlier), hashed and excluded ones mixed, placed before, after or in the middle of the list
-	if rng.Intn(2) == 0 {
-		k := 2 + rng.Intn(4)
+	// (own random stream, derived from the run's seed: the other generators see the numbers they saw before this
+	// family was added)
+	if rngRuns.Intn(2) == 0 {
+		k := 2 + rngRuns.Intn(4)
 		var run []seg
 		room := im.RegionEnd - im.RegionBeg
-		pos := im.RegionBeg + rng.Intn(room/2)
+		pos := im.RegionBeg + rngRuns.Intn(room/2)
 		for i := 0; i < k; i++ {
-			size := 16 * rng.Intn(0x20)
-			if rng.Intn(5) == 0 {
-				size = rng.Intn(0x100)
+			size := 16 * rngRuns.Intn(0x20)
+			if rngRuns.Intn(5) == 0 {
+				size = rngRuns.Intn(0x100)
 			}
 			if pos+size > im.RegionEnd {
 				break
 			}
 			run = append(run, seg{uint32(im.phys(pos)), uint32(size), pick[uint16](0, 1, 0, 1, 1, 3, 2, 0xfffe)})
 			pos += size
-			switch rng.Intn(8) {
+			switch rngRuns.Intn(8) {
 			case 0:
 				pos++
 			case 1:
@@ -858,18 +861,18 @@ func randomSegs(im *image, allowOutside bool) []seg {
 				}
 			}
 		}
-		if rng.Intn(4) == 0 { // the run in descending order
+		if rngRuns.Intn(4) == 0 { // the run in descending order
 			for i, j := 0, len(run)-1; i < j; i, j = i+1, j-1 {
 				run[i], run[j] = run[j], run[i]
 			}
 		}
-		switch at := rng.Intn(3); {
+		switch at := rngRuns.Intn(3); {
 		case at == 0 || len(s) == 0:
 			s = append(run, s...)
 		case at == 1:
 			s = append(s, run...)
 		default:
-			m := 1 + rng.Intn(len(s))
+			m := 1 + rngRuns.Intn(len(s))
 			s = append(append(append([]seg{}, s[:m]...), run...), s[m:]...)
 		}
 	}
@@ -1479,6 +1482,7 @@ func probes() {
 func main() {
 	ctx = gal.New("C19", header, 160)
 	rng = ctx.Rng
+	rngRuns = rand.New(rand.NewSource(ctx.Seed*7919 + 19))
 	logrus.SetOutput(os.Stderr)
 	logrus.SetLevel(logrus.ErrorLevel)
 	repo := os.Getenv("VERIF_REPO")
